@@ -55,6 +55,8 @@ type World struct {
 
 	closeRequested bool
 	closeReturned  bool
+	// closeStep[incarnation]: controller step at which Queue.Close returned
+	closeStep map[int]int
 
 	// downOverride replaces the scripted downstream (world Q-B)
 	downOverride module.DeliveryTarget
@@ -246,7 +248,7 @@ func knob(a *harness.Args, name string, def int) int {
 // Run is the world function for all queue properties.
 func Run(s *simrt.Sim, a *harness.Args, r *harness.Result) {
 	log.DefaultLogger.Out = log.NopOutput{}
-	w := &World{s: s, a: a, prop: a.Prop, closeDone: map[int]bool{}}
+	w := &World{s: s, a: a, prop: a.Prop, closeDone: map[int]bool{}, closeStep: map[int]int{}}
 	prof := strings.ToLower(a.Prop)
 	w.sc = Gen(s.T, prof)
 	sc := w.sc
@@ -328,6 +330,7 @@ func Run(s *simrt.Sim, a *harness.Args, r *harness.Result) {
 		s.TimeNum, s.TimeDen = 1, []int{8, 32}[s.T.Choose("knob", 2)]
 		s.TimeLadder = []time.Duration{time.Millisecond, time.Second, sc.Retry + time.Second}
 		s.TimeBudget = 6
+		s.LateStarts = s.T.Choose("knob", 4) == 0
 	default:
 		s.PreemptBudget = []int{0, 0, 1, 2}[s.T.Choose("knob", 4)]
 		s.PreemptNum, s.PreemptDen = 1, 8
@@ -372,6 +375,7 @@ func Run(s *simrt.Sim, a *harness.Args, r *harness.Result) {
 			s.Logf("closer: Close()")
 			w.q.Close()
 			w.closeReturned = true
+			w.closeStep[inc1.ID] = s.Steps()
 			s.Logf("closer: Close returned")
 		})
 	}
@@ -477,6 +481,7 @@ func (w *World) closeLive() {
 	n := w.incN
 	w.s.Spawn(fmt.Sprintf("close%d", n), w.inc, func() {
 		q.Close()
+		w.closeStep[n] = w.s.Steps()
 		if q2 != nil {
 			q2.Close()
 		}
